@@ -219,6 +219,14 @@ class ScriptedBroker(AsyncBroker):
                     return _inner(i)     # plain function returning a coroutine
 
                 item = AckableMessage(data=data, ack=dack)
+            elif ackkind == "slow":
+                async def slow_ack(i: int = i) -> None:
+                    # an acknowledgement that is a real round trip to the broker: it is complete only when the coroutine has finished
+                    self.tr.add("ack", i)
+                    await asyncio.sleep(1.5)
+                    self.tr.add("ack_done", i)
+
+                item = AckableMessage(data=data, ack=slow_ack)
             elif ackkind in ("sync", "sync_fail"):
                 def sack(i: int = i, fail: bool = ackkind == "sync_fail") -> None:
                     self.tr.add("ack", i)
